@@ -26,6 +26,7 @@ var c09Plan = []planEntry{
 	{spaces.XList.Without("\t"), 5, 6},
 	{spaces.XHTML, 4, 5},
 	{spaces.XMlRef, 5, 6},
+	{spaces.XPhrase, 4, 5},
 }
 
 var (
